@@ -301,7 +301,7 @@ TEXT = {
                       "ends; terminal k-mers and extension bytes from build_node's assembly, complemented when an old node lies reverse-"
                       "complemented), hence C09_result_wellformed (the result satisfies GInv, find_link is complete on it) and C09_idempotent: "
                       "re-compressing the result returns, every path of the second call is exactly one node of the first result, node counts and "
-                      "partitions agree. C09_findBadNodes: the tip finder that supplies censor lists returns exactly the dead ends meeting the caller's predicate, ascending. With a non-empty censor set the property's claims are C09_kmers_cover, C09_char, buildNode_payload and "
+                      "partitions agree. C09_is_compressed_after_recompress: is_compressed - the crate's own maximality check, asserted at the end of compress_graph in debug builds - is modelled and returns None on the result of an uncensored re-compression (a reported edge would be a good link between the end ports of two different nodes, and the nodes are the classes of that relation), so that assertion cannot fire there. C09_findBadNodes: the tip finder that supplies censor lists returns exactly the dead ends meeting the caller's predicate, ascending. With a non-empty censor set the property's claims are C09_kmers_cover, C09_char, buildNode_payload and "
                       "C09_no_dangling; the additional comparison with a k-mer table rebuilt from the surviving nodes is an executable cross-check.",
         "design_ref": "DESIGN.md section 6, C09",
         "level_note": COMMON_NOTE + "Input graphs satisfy GInv (every graph the crate builds does: C03_ginv_of_compress, C09_result_wellformed); join symmetric.",
